@@ -1,5 +1,6 @@
 """C19 — decoding a PEL gives the same result whatever was decoded before it."""
 import json
+import struct
 import os
 import shutil
 import subprocess
@@ -460,6 +461,61 @@ def run(tier, seed):
                         ck.fail('the result of a decode depends on what was decoded before it (contents of equal length and equal %s)' % kind_,
                                 {'op': 'history', 'history': [(pa.hex(), {'every': 1}, True), (pb.hex(), {'every': 1}, True)], 'step': 1,
                                  'in_history': str(rb[:3])[:300], 'fresh': str(fb)[:300]}, 'history_dependence_collision')
+        finally:
+            env_on.uninstall()
+        # ---- the shipped ILOG tables across logs: two table entries that overlap (a PTE matching both, a PTE matching only the LATER one), in two
+        # logs decoded one after the other in one process, in both orders -- each log is shown as a fresh interpreter shows it (first match in file order)
+        env_on.install()
+        try:
+            import re as _re
+            from io_drawer.drawer_type import DRAWER_TYPES as _DT
+            for dt_ in _DT:
+                try:
+                    rows_ = _re.findall(r'\{\s*"([0-9A-Fa-f*]{8})"\s*,\s*"([^"]*)"', open(dt_.get_header_file_path(), errors='replace').read())
+                except Exception:
+                    rows_ = []
+                pats, msgs_ = [r_[0] for r_ in rows_], [r_[1] for r_ in rows_]
+                # (designing the inputs only: a plain wildcard matcher over the pattern column; the verdict comes from the fresh interpreter)
+                def m_(pat, hx):
+                    return all(a_ == '*' or a_.upper() == b_ for a_, b_ in zip(pat, hx))
+                def first_(hx):
+                    return next((k for k, pt in enumerate(pats) if m_(pt, hx)), None)
+                pairs_ = []
+                for j_, pj in enumerate(pats):
+                    if '*' not in pj or len(pairs_) >= (12 if thorough else 5):
+                        continue
+                    for i_, pi in enumerate(pats[:j_]):
+                        if msgs_[i_] == msgs_[j_] or not all(a_ == '*' or b_ == '*' or a_.upper() == b_.upper() for a_, b_ in zip(pi, pj)):
+                            continue
+                        x_ = ''.join((a_ if a_ != '*' else b_ if b_ != '*' else rng.choice('0123456789ABCDEF')).upper() for a_, b_ in zip(pi, pj))
+                        ys_ = [''.join((b_ if b_ != '*' else rng.choice('0123456789ABCDEF')).upper() for b_ in pj) for _ in range(8)]
+                        y_ = next((y for y in ys_ if first_(y) == j_), None)
+                        if y_ is not None and first_(x_) is not None and first_(x_) < j_ and m_(pj, x_):
+                            pairs_.append((int(x_, 16), int(y_, 16)))
+                            break
+                for x_, y_ in pairs_:
+                    def ilog_pel(v_):
+                        s_ = ud_sec(rng, 0x2C00, struct.pack('>HHI', 0x0100, 1, v_) + struct.pack('>HHI', 0x0101, 2, v_))
+                        s_['hdr']['sub'] = 73
+                        s_['hdr']['ver'] = dt_.user_data_version
+                        p_ = apel.gen_pel(rng, max_sections=0)
+                        p_['ph']['creator'] = ord('M')
+                        p_['sections'] = [s_]
+                        return apel.enc_pel(p_)
+                    px, py = ilog_pel(x_), ilog_pel(y_)
+                    for first_, second_ in ((py, px), (px, py)):
+                        apel.reset_caches()
+                        apel.real_decode(first_, {'every': 1}, allow_plugins=True)
+                        r2 = apel.real_decode(second_, {'every': 1}, allow_plugins=True)
+                        f2 = fresh(fresh_py, second_, True)
+                        ck.case(key=('ilog-overlap', dt_.name, x_, y_, first_ is py))
+                        ck.count('overlapping ILOG table entries across two logs')
+                        if f2 != json.loads(json.dumps(r2[:3])):
+                            ck.fail('the result of a decode depends on what was decoded before it (ILOG entries whose table patterns overlap)',
+                                    {'op': 'history', 'history': [(first_.hex(), {'every': 1}, True), (second_.hex(), {'every': 1}, True)], 'step': 1,
+                                     'in_history': str(r2[:3])[-300:], 'fresh': str(f2)[-300:]}, 'history_dependence_ilog')
+        except ImportError as e:
+            ck.skip('io_drawer.drawer_type unavailable: %r' % e)
         finally:
             env_on.uninstall()
         # ---- the component-id loader against the model on generated configuration directories
